@@ -31,7 +31,8 @@ OffCells == {Stored(v) : v \in OffVals} \cup (IF AllowAbsent THEN {Absent} ELSE 
 \* the diagonal may be structurally absent, too: the pivot can arise from fill-in alone (e.g. [2 1; 3 .])
 DiagCells == {Stored(v) : v \in DiagVals} \cup (IF AllowAbsent THEN {Absent} ELSE {})
 
-Rhs(k, m) == [i \in 1..m |-> IF k = 1 THEN FInt(i) ELSE FInt(IF i % 2 = 0 THEN -1 ELSE 2)]
+\* right-hand sides: a dense one and a sparse one (exact zeros in front of a single non-zero entry)
+Rhs(k, m) == [i \in 1..m |-> IF k = 1 THEN FInt(i) ELSE FInt(IF i = m THEN 3 ELSE 0)]
 
 Init ==
   /\ n \in Dims
